@@ -294,8 +294,10 @@ theorem route_tail_good {cfg : Config} {d : Option (Bytes × Nat)} {x : Ctx} {p 
       · exact ⟨h.of_peers_eq rfl, ⟨[_], rfl, by simp [J]⟩, fun _ hj => idFirst_errorFromRequest hj,
           Or.inl (AuthSame.of_eq rfl rfl)⟩
       · generalize hsend : send _ e.owner _ = r
-        have hst : r.1.st.peers = updatePeer x.st.peers e.owner _ ∧ r.1.st.users = x.st.users := by
-          rw [← hsend, send_st]; exact ⟨rfl, rfl⟩
+        have hst : ∃ f : Peer → List Route, r.1.st.peers = updatePeer x.st.peers e.owner (fun q => { q with routes := f q }) ∧
+            r.1.st.users = x.st.users := by
+          rw [← hsend, send_st]; exact ⟨_, rfl, rfl⟩
+        obtain ⟨fr, hst⟩ := hst
         have hout := OutExt.send (Q := J cfg x.st d) _ e.owner _
           (fun ok => J_idFirst (idFirst_routedMessage _ path isState _) ok)
         rw [hsend] at hout
@@ -324,6 +326,7 @@ theorem setOrCall_good {cfg : Config} {d : Option (Bytes × Nat)} {x : Ctx} {p :
     | none => exact Good.err h _ _ _
     | some e =>
       simp only
+      generalize (if isState then hasAccess cfg e.setGroups p.setGroups else hasAccess cfg e.callGroups p.callGroups) = acc
       split
       · exact Good.err h _ _ _
       · split
